@@ -1,5 +1,6 @@
 import Driver.Loop
 import PMV.Model.Units
+import PMV.Model.UnitsPrint
 /- line-protocol handlers for the C12 view (Units algebra and the units rule of object operations) -/
 namespace Drv.C12
 open PMV PMV.Units
@@ -125,6 +126,24 @@ def nameSx : Option NameDict → Sx
   | some d => .list (((d.filter fun kv => kv.2 != 0).foldr insertKV []).map fun kv =>
       .list [.atom (if kv.1 == "" then "_" else kv.1), Sx.ofInt kv.2])
 
+/-- strings on the wire: `_` is the empty string, `~` a blank -/
+def decStr (s : String) : String := if s == "_" then "" else s.map fun c => if c == '~' then ' ' else c
+
+/-- a name for printing: `N` | `(s string)` | `(d (key expo) …)` -/
+def parsePName : Sx → Option (Option PName)
+  | .atom "N" => some none
+  | .list [.atom "s", .atom s] => some (some (.str (decStr s)))
+  | .list (.atom "d" :: l) => (l.mapM fun (x : Sx) =>
+      match x with
+      | Sx.list [Sx.atom k, e] => e.toInt?.map fun e => ((some (decStr k) : PKey), NVal.int e)
+      | _ => none).map fun d => some (.dict d)
+  | _ => none
+
+/-- the registry with the `.name` of one entry set to None (the damage of defect 13) -/
+def damage (r : Reg) (key : String) : Reg :=
+  let f := fun (x : RU) => if x.key == key then { x with name := none } else x
+  { unitless := f r.unitless, dist := r.dist.map f, time := r.time.map f, angle := r.angle.map f }
+
 def handle : List Sx → Sx
   | [.atom "mk", a, b, c, n, d, p] =>
     match a.toInt?, b.toInt?, c.toInt?, n.toNat?, d.toNat?, p.toInt? with
@@ -174,6 +193,14 @@ def handle : List Sx → Sx
     match parseOU a, parsePw p with
     | some a, some p => exOSq (unitsPower a p)
     | _, _ => err "operand"
+  | [.atom "str", u, nm, .atom dmg] =>
+    match parseU u, parsePName nm with
+    | some u, some nm =>
+      let r := if dmg == "-" then stdReg else damage stdReg (decStr dmg)
+      match strU r u nm with
+      | .ok s => .atom s
+      | .error e => rejSx e
+    | _, _ => err "operand"
   | [.atom "names", .atom fn, a, b, k] =>
     match parseName a, parseName b, k.toInt? with
     | some a, some b, some k =>
@@ -221,18 +248,53 @@ def handle : List Sx → Sx
     match parseOU a, parseOU b, parseOp op with
     | some a, some b, some op => outSx (unitsRule op a b)
     | _, _, _ => err "rule"
-  | .atom "hist" :: n :: nder :: cur :: new :: .atom target :: b :: op =>
-    -- fresh object (units cur, nder derivatives), n touches of the cached view, set_units(new), then the
-    -- operation on the object or on its .wod
+  | .atom "hist" :: n :: nder :: cur :: .atom change :: new :: .atom target :: b :: op =>
+    -- fresh object (units cur, nder derivatives), n touches of the cached view, the unit-changing step(s), then the
+    -- operation on the object reached or on its .wod
     match n.toNat?, nder.toNat?, parseOU cur, parseOU new, parseOU b, parseOp op with
     | some n, some nder, some cur, some new, some b, some op =>
       let o : Obj := ⟨[⟨1, 0⟩], cur, (List.range nder).map fun _ => ("d", ⟨[⟨1, 0⟩], none⟩), true⟩
-      match (CObj.touches n ⟨o, none⟩).setUnits new with
-      | .error e => rejSx e
-      | .ok c =>
-        let ua := if target == "wod" then c.wod.1.units else c.obj.units
-        outSx (unitsRule op ua b)
+      let touches := List.replicate n HOp.touch
+      let steps? : Option (List HOp) := match change with
+        | "set" => some (touches ++ [.setUnits new])
+        | "without" => some (touches ++ [.without])
+        | "into" => some (touches ++ [.into])
+        | "from" => some (touches ++ [.«from»])
+        | "clone_set" => some (touches ++ [.clone] ++ (if n > 0 then [.touch] else []) ++ [.setUnits new])
+        | _ => none
+      match steps? with
+      | none => err "hist-change"
+      | some steps =>
+        match CObj.run steps ⟨o, none⟩ with
+        | .error e => rejSx e
+        | .ok c =>
+          let ua := if target == "wod" then c.wod.1.units else c.obj.units
+          outSx (unitsRule op ua b)
     | _, _, _, _, _, _ => err "hist"
+  | .atom "drule" :: a :: b :: da :: db :: .atom dop :: p :: z :: op =>
+    -- result units (unitsRule) and units of the result's derivative (derivRule)
+    let parseDU : Sx → Option DU := fun x => match x with
+      | .atom "-" => some none
+      | x => (parseOU x).map some
+    let dop? : Option DOp := match dop, parsePw p, z.toBool? with
+      | "mul", _, _ => some .mulLike | "div", _, _ => some .div | "elem_div", _, _ => some .elemDiv
+      | "sqrt", _, _ => some .sqrt | "recip", _, _ => some .recip | "norm", _, _ => some .norm
+      | "norm_sq", _, _ => some .normSq
+      | "pow", some p, some z => some (.pow p z)
+      | _, _, _ => none
+    match parseOU a, parseOU b, parseDU da, parseDU db, dop?, parseOp op with
+    | some a, some b, some da, some db, some dop, some op =>
+      let dsx : Sx := match derivRule dop a b da db with
+        | .error e => rejSx e
+        | .ok .absent => .atom "absent"
+        | .ok .inexact => .atom "inexact"
+        | .ok (.units u) => .list [.atom "units", ouSx u]
+      match unitsRule op a b with
+      | .error e => rejSx e
+      | .ok r => match derivRule dop a b da db with
+        | .error e => rejSx e               -- the operation as a whole raises
+        | .ok _ => .list [outSx (.ok r), dsx]
+    | _, _, _, _, _, _ => err "drule"
   | [.atom "scale", .atom dir, top, .list ds] =>
     -- into_units / from_units: factor applied to the object and to each derivative
     match parseOU top, ds.mapM parseOU with
